@@ -203,6 +203,14 @@ func init() {
 			}
 			mergeFaultCov(cov, tcov, "task_pass")
 			viols = append(viols, tviols...)
+			// third pass: the fault is injected BELOW the ldb backend (a journal write of LevelDB
+			// fails), so that the backend's own error paths run
+			bcov, bviols, err := backendFaultPass(c)
+			if err != nil {
+				return nil, nil, nil, err
+			}
+			cov["backend_fault_pass"] = bcov
+			viols = append(viols, bviols...)
 			cov["rule"] = "base histories = shortest history of every state of the C01 space up to the base depth; a dry run over the db seam counts the fallible wallet-database calls c (BeginTx, BeginReadTx, Get, GetByPrefix, Put, Delete, Clear, NewBucket, DeleteBucket, iterator, Commit); for EVERY call index i<c and every repeat count the history is re-run with those calls returning an error; " +
 				"afterwards storage works again, queued notifications are delivered, the node announces one more tip, and all ledger queries are compared with the reference ledger; distinct_nontrivial = distinct final observations"
 			return cov, []string{
@@ -227,6 +235,72 @@ func mergeFaultCov(cov, t map[string]interface{}, name string) {
 	if e, _ := t["exhaustive"].(bool); !e {
 		cov["exhaustive"] = false
 	}
+}
+
+// backendFaultPass: for a handful of directed histories every journal write of the wallet
+// database (counted in a dry run) is made to fail in turn, below the ldb backend. LevelDB then
+// refuses writes until the database is reopened: later events of the history may fail (cleanly -
+// no panic, no call that never returns), then the wallet is restarted through the real start-up
+// path and must catch up to the reference ledger, with unfinished background work resumed.
+func backendFaultPass(c *runCtx) (map[string]interface{}, []violation, error) {
+	bases := [][]string{
+		{"x.pa", "d", "x.e", "d"},
+		{"x.pa", "d", "x.sa", "d", "r.1.E", "d"},
+		{"x.pc0", "d", "i.m0", "i.s", "x.e", "d"},
+		{"x.ab", "d", "k.rm", "k.run", "x.e", "d"},
+		{"n.a", "x.pa", "d"},
+		{"n.w", "x.e", "d"},
+	}
+	opts := map[string]interface{}{"tasks": true}
+	deadline := time.Now().Add(15 * time.Minute)
+	var dryTasks [][]string
+	for _, h := range bases {
+		dryTasks = append(dryTasks, append(append([]string{}, h...), "#ldry:0"))
+	}
+	dry, _, err := runTasks(c.Bin, c.Scratch, "c06", opts, dryTasks, c.Workers, 20, deadline)
+	if err != nil {
+		return nil, nil, err
+	}
+	var tasks [][]string
+	points := 0
+	for i, h := range bases {
+		r := dry[i]
+		if r == nil {
+			continue
+		}
+		if r.Err != "" {
+			return nil, nil, fmt.Errorf("backend-fault history %v: %s", h, r.Err)
+		}
+		if len(r.Viol) > 0 {
+			continue
+		}
+		for k := 1; k <= r.Info["journal_writes"]; k++ {
+			tasks = append(tasks, append(append([]string{}, h...), fmt.Sprintf("#lfail:%d", k)))
+		}
+		points += r.Info["journal_writes"]
+	}
+	res, _, err := runTasks(c.Bin, c.Scratch, "c06", opts, tasks, c.Workers, 20, deadline)
+	if err != nil {
+		return nil, nil, err
+	}
+	done, inconclusive, injected := 0, 0, 0
+	var viols []violation
+	for i, r := range res {
+		if r == nil {
+			continue
+		}
+		if r.Err != "" {
+			return nil, nil, fmt.Errorf("backend-fault task %v: %s", tasks[i], r.Err)
+		}
+		done++
+		inconclusive += r.Info["inconclusive"]
+		injected += r.Info["low_faults_injected"]
+		if len(r.Viol) > 0 {
+			viols = append(viols, violation{Hist: tasks[i], Viol: r.Viol, Known: r.KnownTags, Detail: r.Detail, Opts: opts})
+		}
+	}
+	return map[string]interface{}{"histories": len(bases), "journal_writes_as_fault_points": points, "runs_completed": done, "faults_injected": injected, "inconclusive_runs": inconclusive,
+		"what": "a failing LevelDB journal write below the ldb backend at every journal write of 6 directed histories (blocks, reorganisation, import + batch, removal, NewAddress, CreateWallet); afterwards restart and catch-up"}, viols, nil
 }
 
 // largeTxPass: directed histories whose commits carry thousands of records each; every commit
